@@ -366,19 +366,25 @@ fn create_network(
         &vehicle_type_lookup,
     );
 
-    let number_of_service_trips: VehicleCount = service_trips
+    let maintenance_slots = create_maintenance_slots(json_input, &locations, &location_lookup);
+
+    // depots that are not given are unlimited, i.e., they can host every vehicle of any schedule
+    let vehicle_upper_limit: VehicleCount = service_trips
         .values()
         .map(|trips| trips.len() as VehicleCount)
-        .sum();
+        .sum::<VehicleCount>()
+        .max(Network::upper_bound_on_vehicles(
+            &service_trips,
+            &maintenance_slots,
+            &vehicle_types,
+        ));
     let depots = create_depots(
         json_input,
         &locations,
         &location_lookup,
         &vehicle_type_lookup,
-        number_of_service_trips,
+        vehicle_upper_limit,
     );
-
-    let maintenance_slots = create_maintenance_slots(json_input, &locations, &location_lookup);
 
     Network::new(
         depots,
